@@ -24,8 +24,33 @@ var deadEndTables = [][2][]string{
 	{{"-", "-!>"}, {"!", "-"}},
 }
 
+// hand-written tables in which a prefix operator's spelling is a proper prefix of a binary one
+var prefixOfBinaryTables = [][2][]string{
+	{{"<", "<<"}, {"<"}},
+	{{"<<", "<"}, {"<"}},
+	{{"<<", "+"}, {"<"}},
+	{{"&&", "&"}, {"&", "!"}},
+	{{"=", "=="}, {"="}},
+	{{"->", "+"}, {"-"}},
+}
+
+// the property quantifies over up to 16 binary operators: the whole pool plus four more spellings,
+// in three orders, with every subset of prefix operators
+var widePool = append(append([]string(nil), binPool...), "/", "%", "^", "|")
+
+func wideOrders() [][]string {
+	n := len(widePool)
+	rev := make([]string, n)
+	rot := make([]string, n)
+	for i, s := range widePool {
+		rev[n-1-i] = s
+		rot[(i+7)%n] = s
+	}
+	return [][]string{widePool, rev, rot}
+}
+
 // eachTable enumerates every table: ordered selections of n binary spellings x prefix subsets x
-// alias off/on, simplest first. fn returns false to stop.
+// alias off/on, simplest first, after the few hand-written families. fn returns false to stop.
 func eachTable(maxN int, fn func(idx int64, t *table) bool) {
 	var idx int64
 	sel := []string{}
@@ -76,16 +101,42 @@ func eachTable(maxN int, fn func(idx int64, t *table) bool) {
 		}
 		return true
 	}
+	for _, d := range deadEndTables {
+		t := newTable(d[0], d[1], "")
+		t.class = "dead-end"
+		if !fn(idx, t) {
+			return
+		}
+		idx++
+	}
+	for _, d := range prefixOfBinaryTables {
+		t := newTable(d[0], d[1], "")
+		t.class = "prefix-of-binary"
+		if !fn(idx, t) {
+			return
+		}
+		idx++
+	}
+	for _, o := range wideOrders() {
+		for mask := 0; mask < 1<<len(unPool); mask++ {
+			var un []string
+			for i, u := range unPool {
+				if mask&(1<<i) != 0 {
+					un = append(un, u)
+				}
+			}
+			t := newTable(o, un, "")
+			t.class = "wide"
+			if !fn(idx, t) {
+				return
+			}
+			idx++
+		}
+	}
 	for n := 1; n <= maxN; n++ {
 		if !rec(n) {
 			return
 		}
-	}
-	for _, d := range deadEndTables {
-		if !fn(idx, newTable(d[0], d[1], "")) {
-			return
-		}
-		idx++
 	}
 }
 
@@ -122,6 +173,21 @@ func relabel(n *gx.Node, next *int) *gx.Node {
 	return c
 }
 
+// placeholders clones the tree with every operator spelling replaced by its placeholder.
+func (t *table) placeholders(n *gx.Node) *gx.Node {
+	if n == nil {
+		return nil
+	}
+	c := &gx.Node{K: n.K, S: n.S, A: t.placeholders(n.A), B: t.placeholders(n.B), C: t.placeholders(n.C)}
+	if n.K == gx.Bin || n.K == gx.Un {
+		c.S = t.ph[n.S]
+	}
+	for _, a := range n.Args {
+		c.Args = append(c.Args, t.placeholders(a))
+	}
+	return c
+}
+
 func usesOp(n *gx.Node, op string) bool {
 	if n == nil {
 		return false
@@ -142,8 +208,9 @@ func usesOp(n *gx.Node, op string) bool {
 
 // renderings returns the token lists of: minimal parentheses, every non-empty subset of redundant
 // parenthesis pairs around operator nodes, full parentheses (deduplicated, minimal first).
-func (c *checker) renderings(tree *gx.Node, subsets bool) [][]tok {
-	t := c.t
+func (c *checker) renderings(orig *gx.Node, subsets bool) [][]tok {
+	tree := c.t.placeholders(orig)
+	t := c.t.rt
 	var consulted []*gx.Node
 	min := t.Render(tree, gx.RenderOpts{Sep: " ", Extra: func(n *gx.Node) bool { consulted = append(consulted, n); return false }})
 	texts := []string{min}
@@ -171,13 +238,13 @@ func (c *checker) renderings(tree *gx.Node, subsets bool) [][]tok {
 			continue
 		}
 		seen[s] = true
-		ts, ok := t.lex(s)
+		ts, ok := c.t.lex(s)
 		if !ok {
 			panic("c03: cannot lex own rendering " + s)
 		}
-		if t.Alias != "" {
+		if c.t.Alias != "" {
 			for i := range ts {
-				if ts[i].k == kOp && ts[i].s == t.Alias {
+				if ts[i].k == kOp && ts[i].s == c.t.Alias {
 					ts[i].alias = true
 				}
 			}
@@ -206,9 +273,9 @@ func (c *checker) checkTree(tree *gx.Node, blank bool, kind string, space int) {
 		if i == 0 && blank && c.t.layout(ts, false, nil) != c.t.layout(ts, true, nil) {
 			c.eval(ts, tree, true, kind, false)
 		}
-		if i == 1 && wantSample(c.ctx, space) && countOps(tree) >= 3 {
+		if i == 1 && wantSample(c.ctx, space) && countOps(tree) >= 3 && tree.K == gx.Bin && tree.A.K != gx.Leaf {
 			c.nSample++
-			if c.nSample%37 == 1 {
+			if c.nSample%37 == 5 {
 				c.ctx.Sample(map[string]any{"space": kind, "table": c.t.id(), "tree": tree.String(), "src": c.t.layout(ts, false, nil)})
 			}
 		}
@@ -245,9 +312,9 @@ func maxTableSize(bounds []nodeBound) int {
 }
 
 func runOps(ctx *bex.Ctx) {
-	bounds := []nodeBound{{3, 3}}
+	bounds, extraNodes := []nodeBound{{3, 3}}, 3
 	if !ctx.Quick() {
-		bounds = []nodeBound{{4, 3}, {3, 4}}
+		bounds, extraNodes = []nodeBound{{4, 3}, {3, 4}}, 4
 	}
 	ctx.Space("tables-x-operator-trees")
 	eachTable(maxTableSize(bounds), func(idx int64, t *table) bool {
@@ -257,7 +324,6 @@ func runOps(ctx *bex.Ctx) {
 		if ctx.Expired() {
 			return false
 		}
-		ctx.Add("tables", 1)
 		if t.deadEnd {
 			ctx.Unspecified("operator table with a dead-end prefix (greedy trie walk and longest match disagree): adjacent operators written with a blank")
 		}
@@ -265,6 +331,13 @@ func runOps(ctx *bex.Ctx) {
 			ctx.Add("tables_with_prefix_operator_also_last_binary", 1)
 		}
 		maxNodes := boundFor(bounds, len(t.Bin))
+		switch t.class {
+		case "dead-end", "prefix-of-binary":
+			maxNodes = extraNodes
+		case "wide":
+			maxNodes = extraNodes - 1
+		}
+		ctx.Add("tables_"+t.class, 1)
 		c := &checker{ctx: ctx, t: t, p: buildParser(t)}
 		en := &gx.Enumerator{Leaves: []*gx.Node{gx.L("?")}, Bin: t.Bin, Un: t.Un}
 		for lv := 0; lv <= maxNodes && !ctx.Expired(); lv++ {
@@ -283,8 +356,8 @@ func runOps(ctx *bex.Ctx) {
 		c.flush()
 		return true
 	})
-	ctx.SpaceDone(fmt.Sprintf("every ordered selection of n binary spellings from %v x every subset of prefix operators %v (also binary wherever the spelling is in the table, at every position incl. the last) x text alias off/on (alias for '+', else for the first operator; on: only trees using the aliased operator, written 'plus') + %d dead-end tables; every tree with <= k operator nodes (leaves a b 1 by position) for {n<=, k} in %v; renderings: minimal tight, minimal blank-separated (trees below the top level), every subset of redundant parenthesis pairs, full",
-		binPool, unPool, len(deadEndTables), bounds))
+	ctx.SpaceDone(fmt.Sprintf("every ordered selection of n binary spellings from %v x every subset of prefix operators %v (also binary wherever the spelling is in the table, at every position incl. the last) x text alias off/on (alias for '+', else for the first operator; on: only trees using the aliased operator, written 'plus'), every tree with <= k operator nodes (leaves a b 1 by position) for {n<=, k} in %v; + %d dead-end tables and %d tables whose prefix operator is a proper prefix of a binary spelling (<= %d nodes) + 3 orders of the 16-operator table %v x every prefix subset (<= %d nodes); renderings: minimal tight, minimal blank-separated (trees below the top level), every subset of redundant parenthesis pairs, full",
+		binPool, unPool, bounds, len(deadEndTables), len(prefixOfBinaryTables), extraNodes, widePool, extraNodes-1))
 }
 
 func main() {
